@@ -228,6 +228,42 @@ def arrayMessage (m : Msg) (sep : Byte) (allocOk : Bool := true) : Res (Nat × L
 def append (arr : List Byte) (m : Msg) : List Byte :=
   m.cont.foldl (fun a f => if f.length = 0 then a else a ++ f) (if m.base.length ≠ 0 then arr ++ m.base else arr)
 
+/-- capacity of a buffer allocated for `n` bytes (array/buffer_alloc.c: 64-byte header, 128-byte granules) -/
+def bufCap (n : Nat) : Nat := (n + 64 + 127) / 128 * 128 - 64
+
+/-- does `mpt_array_append(arr, len, …)` have to allocate? (no buffer yet, or `len > size − used`) -/
+def needAlloc (cap : Option Nat) (used len : Nat) : Bool :=
+  match cap with
+  | none => true
+  | some c => len > c - used
+
+/-- `mpt_message_append` with allocation failures: every non-empty fragment goes through
+    `mpt_array_append`, which allocates a new buffer when the array has none (`cap = none`) or the
+    fragment does not fit; the `failAt`-th allocation fails (`0` = none does).
+    Result: (all appended?, current buffer content, allocations attempted) -/
+def appendLoop (failAt : Nat) : List Frag → Option Nat → List Byte → Nat → Bool × List Byte × Nat
+  | [], _, cur, n => (true, cur, n)
+  | f :: fs, cap, cur, n =>
+    if f.length = 0 then appendLoop failAt fs cap cur n
+    else
+      if needAlloc cap cur.length f.length then
+        if n + 1 = failAt then (false, cur, n + 1)
+        else appendLoop failAt fs (some (bufCap (cur.length + f.length))) (cur ++ f) (n + 1)
+      else appendLoop failAt fs cap (cur ++ f) n
+
+structure AppRes where
+  ret : Int
+  out : List Byte
+  allocs : Nat
+  deriving Repr, DecidableEq
+
+/-- `mpt_message_append(arr, msg)`: on a refused fragment the used length of the array's CURRENT
+    buffer is set back to the length at entry (`if ((buf = arr->_buf)) buf->_used = olen`) -/
+def appendSched (arr : List Byte) (m : Msg) (failAt : Nat) : AppRes :=
+  let cap0 := if arr.length = 0 then none else some (bufCap arr.length)
+  let r := appendLoop failAt (m.base :: m.cont) cap0 arr 0
+  if r.1 then ⟨0, r.2.1, r.2.2⟩ else ⟨Err.MissingBuffer.code, r.2.1.take arr.length, r.2.2⟩
+
 /-- `mpt_message_get(queue, off, take, msg, vec)`: the message over the (possibly wrapped) queue data.
     `.err BadArgument` = −1 (offset outside), `.err BadValue` = −2 (not enough data) -/
 def get (r : Ring) (off take : Nat) : Res Msg :=
